@@ -136,6 +136,10 @@ func c12(args []string) error {
 		chars := []string{"-", "N", "A", "X", "a", "-N", "AC", "n", "x"}[r.Intn(9)]
 		run(alpha, names, seqs, r.Intn(5), chars, cut, r.Intn(2) == 0, r.Intn(2) == 0, r.Intn(2) == 0, r.Intn(2) == 0, r.Intn(3) == 0, "random")
 	}
+	// an alignment without any sequence (length -1): every operation is a no-op, none may crash
+	for kind := 0; kind < 5; kind++ {
+		run(align.NUCLEOTIDS, []string{}, []string{}, kind, "-", c12Cutoffs[kind%len(c12Cutoffs)], kind%2 == 0, false, false, false, false, "empty")
+	}
 	if g.only >= 0 {
 		w.terms = w.terms[g.only : g.only+1]
 		w.meta = w.meta[g.only : g.only+1]
